@@ -43,7 +43,7 @@ def ascii_lit(t):
     return False
 
 
-def boundaries(o, ev, seq):
+def boundaries(o, ev, seq, ctx=None):
     """terms known to be char boundaries of str `seq` on this path (before ev)"""
     out = [const(0), len_term(seq)]
     idx = o.events.index(ev) if ev in o.events else len(o.events)
@@ -51,6 +51,15 @@ def boundaries(o, ev, seq):
         if e["k"] != "call":
             continue
         r = e.get("result")
+        if isinstance(r, tuple) and r and r[0] == "found" and r[1] == seq and r[4] == "position" and ctx is not None:
+            # `s.bytes().position(|b| b == b'-')`: the byte found is one the predicate accepts; if all of those are ASCII, it is
+            # a whole character of the str
+            from .rules.common import pred_true_set
+            ts_ = pred_true_set(ctx, r[2])
+            if ts_ and all(isinstance(c_, int) and c_ < 128 for c_ in ts_):
+                h = ("payload", r, "Some", "0")
+                out.append(h)
+                out.append(mk_binop("Add", h, const(1)))
         if isinstance(r, tuple) and r and r[0] == "found" and r[1] == seq and r[4] == "str::find":
             needle = r[2]
             if is_const(needle) and isinstance(needle[1], int) and needle[1] < 128:
@@ -177,7 +186,7 @@ def census(ctx, outs, typelevel=None):
                     if not okb:
                         why.append("start <= end <= len not provable")
                     if ix["is_str"]:
-                        bs = boundaries(o, ev, seq)
+                        bs = boundaries(o, ev, seq, ctx)
                         for nm, t in (("start", st), ("end", en_t)):
                             if not any(z.entails("Eq", t, b) for b in bs):
                                 why.append("%s is not a known char boundary" % nm)
